@@ -474,7 +474,10 @@ func runBlocks(e *env.Env, rng *chain.Rng, n int, pc *polCases, rep *report.Repo
 		pre := polSnapshot(e, e.Height+1)
 		panicked := e.BeginBlock()
 		post := polSnapshot(e, e.Height)
-		if pc != nil {
+		// a panic after a setting outside the operating envelope (reported by the monitor, a known finding) is outside the
+		// policy model's domain: the model covers the clp policy code, the overflow may surface in any hook that touches the
+		// inflated balances
+		if pc != nil && !(panicked && desc != nil && desc["outside_envelope"] != nil) {
 			id := pc.addBegin(e, panicked, pre, post)
 			rep.CaseIndex[fmt.Sprint(id)] = map[string]interface{}{"after": desc, "begin_block_of_height": e.Height, "panicked": panicked}
 		}
@@ -559,7 +562,11 @@ func C10(c Ctx) *report.Report {
 			}
 		}
 		if cs.Accepted {
-			cs.Blocks, cs.Panic, cs.PanicAt = runBlocks(e, rng, 9, pc, rep, map[string]interface{}{"message": name, "fields": fields})
+			bdesc := map[string]interface{}{"message": name, "fields": fields}
+			if tag := outsideEnvelope(msg); tag != "" {
+				bdesc["outside_envelope"] = tag
+			}
+			cs.Blocks, cs.Panic, cs.PanicAt = runBlocks(e, rng, 9, pc, rep, bdesc)
 			if cs.Panic != "" {
 				sig := fmt.Sprintf("C10/hook-panic/%s/%s/%s", name, panicClass(cs.Panic), strings.Fields(cs.PanicAt)[0])
 				if tag := outsideEnvelope(msg); tag != "" {
